@@ -154,7 +154,8 @@ Effect(c, m, n, a) ==
             Push([c EXCEPT !.pwapp = pw], <<In("M", "add_message", Args("pake", "-", Pake(pw, c.side)))>>)
     [] m = "SK" /\ n = "scared"           -> Push(c, <<In("B", "scared", NoArgs)>>)
     [] m = "SK" /\ n = "compute_key"      ->
-            IF ~PakeUsable(c.side, a.z) THEN Raise(c, "exc:SPAKE2.finish")
+            \* (5a1e124: what SPAKE2 rejects - wrong length, not a group element, our own message reflected - scares the Boss)
+            IF ~PakeUsable(c.side, a.z) THEN Push(c, <<In("B", "scared", NoArgs)>>)
             ELSE LET key == SessionKey(c.side, c.pwapp, a.z) IN
                  Push([c EXCEPT !.key = key],
                       <<In("B", "got_key", Args(key, "-", NoBody)),
@@ -234,9 +235,9 @@ Dispatch(c, m, n, a) ==
             IF a.y = "pake" THEN Push(c, <<In("O", "got_pake", a)>>) ELSE Push(c, <<In("O", "got_non_pake", a)>>)
     [] m = "O" /\ n = "clear_queue" -> [c EXCEPT !.orderq = <<>>]
     [] m = "S" /\ n = "clear_queue" -> [c EXCEPT !.sendq = <<>>]
-    [] m = "SK" /\ n = "got_pake"   ->      \* bytes_to_dict / hexstr_to_bytes on peer-supplied text
-            IF a.z.k = "junk" \/ a.z.k = "enc" \/ a.z.k = "-" THEN Raise(c, "exc:SK.got_pake:parse")
-            ELSE IF a.z.k = "pakebad" THEN Push(c, <<In("SK", "got_pake_bad", NoArgs)>>)
+    [] m = "SK" /\ n = "got_pake"   ->      \* bytes_to_dict / hexstr_to_bytes on text supplied by whoever wrote to the mailbox:
+            \* (5a1e124) anything that does not parse is treated like a message without "pake_v1"
+            IF a.z.k = "junk" \/ a.z.k = "enc" \/ a.z.k = "-" \/ a.z.k = "pakebad" THEN Push(c, <<In("SK", "got_pake_bad", NoArgs)>>)
             \* "pake" and "pakeinv" both carry a pake_v1 hex string
             ELSE Push(c, <<In("SK", "got_pake_good", a)>>)
     [] m = "R" /\ n = "got_message" ->      \* a = (side, phase, body)
